@@ -8,15 +8,15 @@ import (
 // Virtual time. All timers of a world live in one heap ordered by (when, seq).
 
 type TimerEntry struct {
-	when    int64
-	seq     uint64
-	idx     int
-	period  int64
-	ch      chan time.Time // Timer/Ticker channel (cap 1), or nil
-	f       func()         // AfterFunc
-	site    string
-	wakeG   *bool // Sleep flag
-	active  bool
+	when   int64
+	seq    uint64
+	idx    int
+	period int64
+	ch     chan time.Time // Timer/Ticker channel (cap 1), or nil
+	f      func()         // AfterFunc
+	site   string
+	wakeG  *bool // Sleep flag
+	active bool
 }
 
 type timerHeap []*TimerEntry
